@@ -335,4 +335,191 @@ def finalFrom (init : Option Val) (ops : List Op) (k : Key) : Option Val :=
 
 def finalOf (ops : List Op) (k : Key) : Option Val := finalFrom none ops k
 
+/-! ## Histories on the three layers (C04) -/
+
+/-- state-changing operations on a `CacheDB` (keys get the `ST_STORAGE` prefix) over an `OverlayDB` (raw keys) over the store -/
+inductive COp
+  | put (k : Key) (v : Val)
+  | del (k : Key)
+  | commit                    -- `CacheDB.Commit`
+  | reset                     -- `CacheDB.Reset`
+  | bput (k : Key) (v : Val)  -- `OverlayDB.Put` (raw key)
+  | bdel (k : Key)            -- `OverlayDB.Delete`
+  | bcommit (keep : Bool)     -- `NewBatch; CommitTo; BatchCommit`, then a fresh overlay (`keep = false`) or the same one
+  | breset                    -- `OverlayDB.Reset`
+  deriving Repr, DecidableEq
+
+def Cache.step (c : Cache) : COp → Cache
+  | .put k v => c.put stStorage k v
+  | .del k => c.delete stStorage k
+  | .commit => c.commit
+  | .reset => c.reset
+  | .bput k v => { c with backend := c.backend.put k v }
+  | .bdel k => { c with backend := c.backend.delete k }
+  | .bcommit keep => { c with backend := if keep then c.backend.commitTo else c.backend.commitTo.reset }
+  | .breset => { c with backend := c.backend.reset }
+
+/-- what a read of raw key `k` through the transaction cache returns (`[]` = absent) -/
+def Cache.read (c : Cache) (k : Key) : Val :=
+  match c.mem.get k with
+  | some v => v
+  | none => c.backend.get k
+
+/-- what a read of the persistent store returns (`[]` = absent) -/
+def Store.read (st : Store) (k : Key) : Val :=
+  match Store.get st k with
+  | some v => v
+  | none => []
+
+/-! ## StateDB (C08) — `smartcontract/storage/statedb.go`
+
+Keccak is a parameter (the code hash comes with the operation). The storage encoding of an ONG balance
+(`NativeTokenBalance` storage item) is abstracted to `encBal`/`decBal`: only getters are compared with the implementation. -/
+
+def stEthCode : UInt8 := 0x30
+def stEthAccount : UInt8 := 0x31
+def two64 : Nat := 18446744073709551616
+
+/-- `utils.OngContractAddress` -/
+def ongAddr : Bytes := List.replicate 19 0 ++ [2]
+
+def leBytes : Nat → Nat → Bytes
+  | 0, _ => []
+  | k + 1, v => UInt8.ofNat (v % 256) :: leBytes k (v / 256)
+
+def fromLE : Bytes → Nat
+  | [] => 0
+  | b :: r => b.toNat + 256 * fromLE r
+
+def encNat : Nat → Nat → Bytes
+  | 0, _ => []
+  | f + 1, n => if n = 0 then [] else UInt8.ofNat (n % 256) :: encNat f (n / 256)
+
+/-- abstract storage form of a non-zero balance (zero is never stored: `SetBalance` deletes) -/
+def encBal (n : Nat) : Bytes := encNat 64 n
+def decBal (b : Bytes) : Nat := fromLE b
+
+/-- `common.BytesToHash`: crop from the left / left-pad to 32 bytes -/
+def bytesToHash (b : Bytes) : Bytes :=
+  if b.length ≥ 32 then b.drop (b.length - 32) else List.replicate (32 - b.length) 0 ++ b
+
+def zeroHash : Bytes := List.replicate 32 0
+
+structure EthAccount where
+  nonce : Nat
+  codeHash : Bytes
+  deriving Repr, DecidableEq
+
+def EthAccount.isEmpty (a : EthAccount) : Bool := a.nonce == 0 && a.codeHash == zeroHash
+
+structure Snap where
+  changes : MemDB
+  suicided : List Bytes
+  logsSize : Nat
+  refund : Nat
+  deriving Repr, DecidableEq
+
+structure StateDB where
+  cache : Cache
+  suicided : List Bytes := []   -- the keys of the Go map `Suicided` (all values are `true`)
+  logs : List Bytes := []       -- a log is represented by its `Data`
+  refund : Nat := 0             -- uint64
+  snaps : List Snap := []
+  dbErr : Bool := false         -- `OverlayDB.dbErr != nil`
+  deriving Repr, DecidableEq
+
+namespace StateDB
+
+/-- `CacheDB.GetEthAccount` (a stored value is always the 40-byte serialization; anything else decodes to the zero account) -/
+def getEthAccount (s : StateDB) (addr : Bytes) : EthAccount :=
+  let v := s.cache.get stEthAccount addr
+  if v.length = 40 then ⟨fromLE (v.take 8), v.drop 8⟩ else ⟨0, zeroHash⟩
+
+/-- `CacheDB.PutEthAccount`: the empty account is stored as the empty value -/
+def putEthAccount (s : StateDB) (addr : Bytes) (a : EthAccount) : StateDB :=
+  { s with cache := s.cache.put stEthAccount addr (if a.isEmpty then [] else leBytes 8 a.nonce ++ a.codeHash) }
+
+def getState (s : StateDB) (addr slot : Bytes) : Bytes := bytesToHash (s.cache.get stStorage (addr ++ slot))
+def getNonce (s : StateDB) (addr : Bytes) : Nat := (s.getEthAccount addr).nonce
+def getCodeHash (s : StateDB) (addr : Bytes) : Bytes := (s.getEthAccount addr).codeHash
+def getCode (s : StateDB) (addr : Bytes) : Bytes := s.cache.get stEthCode (s.getCodeHash addr)
+def getBalance (s : StateDB) (addr : Bytes) : Nat := decBal (s.cache.get stStorage (ongAddr ++ addr))
+def hasSuicided (s : StateDB) (addr : Bytes) : Bool := s.suicided.contains addr
+def exist (s : StateDB) (addr : Bytes) : Bool :=
+  s.hasSuicided addr || !(s.getEthAccount addr).isEmpty || s.getBalance addr > 0
+def empty (s : StateDB) (addr : Bytes) : Bool := (s.getEthAccount addr).isEmpty && s.getBalance addr == 0
+
+/-- `OngBalanceHandle.SetBalance` -/
+def setBalance (s : StateDB) (addr : Bytes) (n : Nat) : StateDB :=
+  { s with cache := if n = 0 then s.cache.delete stStorage (ongAddr ++ addr)
+                    else s.cache.put stStorage (ongAddr ++ addr) (encBal n) }
+
+/-- state mutations of the EVM interface -/
+inductive Mut
+  | setState (addr slot val : Bytes)
+  | setNonce (addr : Bytes) (n : Nat)
+  | setCode (addr code hash : Bytes)     -- `hash` = Keccak256(code), supplied by the caller of the model
+  | addBalance (addr : Bytes) (n : Nat)
+  | subBalance (addr : Bytes) (n : Nat)
+  | suicide (addr : Bytes)
+  | addLog (data : Bytes)
+  | addRefund (n : Nat)
+  | subRefund (n : Nat)
+  deriving Repr, DecidableEq
+
+/-- `none` = the Go code panics (state unchanged) -/
+def applyMut (s : StateDB) : Mut → Option StateDB
+  | .setState a k v => some { s with cache := s.cache.put stStorage (a ++ k) v }
+  | .setNonce a n => some (s.putEthAccount a { s.getEthAccount a with nonce := n })
+  | .setCode a code h =>
+    let s1 := s.putEthAccount a { s.getEthAccount a with codeHash := h }
+    some { s1 with cache := s1.cache.put stEthCode h code }
+  | .addBalance a n => some (s.setBalance a (s.getBalance a + n))
+  | .subBalance a n =>
+    if s.getBalance a < n then some { s with dbErr := true } else some (s.setBalance a (s.getBalance a - n))
+  | .suicide a =>
+    if (s.getEthAccount a).isEmpty then some s
+    else some ({ s with suicided := if s.suicided.contains a then s.suicided else a :: s.suicided }.setBalance a 0)
+  | .addLog d => some { s with logs := s.logs ++ [d] }
+  | .addRefund n => some { s with refund := (s.refund + n) % two64 }
+  | .subRefund n => if n > s.refund then none else some { s with refund := s.refund - n }
+
+/-- `Snapshot()`: deep clone of the transaction memdb, copy of the map, sizes; returns the new state and the id -/
+def snapshot (s : StateDB) : StateDB × Nat :=
+  ({ s with snaps := s.snaps ++ [⟨s.cache.mem, s.suicided, s.logs.length, s.refund⟩] }, s.snaps.length)
+
+/-- `RevertToSnapshot(idx)`; `none` = panic (`idx+1 > len(snapshots)` or a negative index) -/
+def revert (s : StateDB) (idx : Int) : Option StateDB :=
+  if idx < 0 then none else
+  match s.snaps[idx.toNat]? with
+  | none => none
+  | some sn =>
+    some { s with snaps := s.snaps.take idx.toNat, cache := { s.cache with mem := sn.changes },
+                  suicided := sn.suicided, refund := sn.refund, logs := s.logs.take sn.logsSize }
+
+/-- `DiscardSnapshot(idx)` -/
+def discard (s : StateDB) (idx : Int) : Option StateDB :=
+  if idx < 0 then none else
+  if idx.toNat + 1 > s.snaps.length then none else some { s with snaps := s.snaps.take idx.toNat }
+
+inductive Op
+  | mutate (m : Mut)
+  | snapshot
+  | revert (idx : Int)
+  | discard (idx : Int)
+  deriving Repr, DecidableEq
+
+def step (s : StateDB) : Op → Option StateDB
+  | .mutate m => s.applyMut m
+  | .snapshot => some s.snapshot.1
+  | .revert i => s.revert i
+  | .discard i => s.discard i
+
+/-- a history; a panicking operation is recovered by the caller and leaves the state unchanged -/
+def runOps (s : StateDB) (ops : List Op) : StateDB :=
+  ops.foldl (fun s o => (s.step o).getD s) s
+
+end StateDB
+
 end OntVerif.Model.KV
+
